@@ -17,8 +17,15 @@ From Dashu Require Import Float.Model Float.ElemEncl Float.ElemEntry.
    top-level value that would raise at module initialisation; it is never called (as in Extract_c11.v) *)
 Extract Constant ClassicalDedekindReals.sig_forall_dec => "(fun _ -> assert false)".
 From Dashu Require Import Serde.WordRunsModel Serde.JsonModel Serde.ArchModel Serde.ArchSelect.
+(** round 4 (model files only): gcd / gcd_ext / nth_root / ilog with the dispatch of each word size (Serde/WordRunsModel2.v over
+    C12's kernels), arbitrary JSON token streams and the repaired float text form (Serde/JsonTokenModel.v over the regenerated
+    coq/gen/SerdeVisitorsGen.v), C03's digit-exact float models with every Repr::new (Float/LongModel.v) *)
+From Dashu Require Import Int.GrlModel Int.GrlLehmer Float.LongModel Serde.WordRunsModel2 Serde.JsonTokenModel Serde.ExpRangeModel.
 Require Import ExtrOcamlNativeString.
 Extraction "model.ml"
+  wr_gcd wr_gcdext wr_nthroot wr_ilog wr_gcd_path wr_ilog_path
+  json_str_token json_tok_int json_tok_rat json_tok_float json_float_ser json_float_de_gen
+  ctx_add_n_x ctx_sub_n_x ctx_mul_n ctx_div_n_x ctx_sqrt_n is_normal mul_exp_range_class ctx_mul_build
   to_words value
   sle_value sle_bytes ubig_enc ubig_dec ibig_enc ibig_dec
   ubig_ser_asis ibig_ser_asis ubig_de_asis ibig_de_asis
